@@ -29,11 +29,14 @@ FRACS = [0.0, 1.0, 0.2, 0.29, 0.3, 0.7, 1 / 3, 0.1, 0.5, 0.25, 0.58, 0.57, 0.9, 
 def split_cases(draw):
     n = draw(st.one_of(st.integers(0, 60), st.sampled_from([97, 128, 250, 1000])))
     f = st.one_of(st.sampled_from(FRACS), st.floats(0, 1, allow_nan=False).map(lambda v: round(v, 3)))
+    ends = st.sampled_from([0, 1, True, False])           # the end points of [0,1] spelled as Python ints / bools
+    f = st.one_of(f, f, f, ends)
     return {"n": n, "test": draw(f), "val": draw(st.one_of(st.none(), f)), "shuffle": draw(st.booleans()),
             "seed": draw(st.integers(0, 2 ** 31 - 1)), "default_test": draw(st.integers(0, 7)) == 0}
 
 
 def _floor_sizes(frac, n):
+    frac = float(frac)
     a = int(math.floor(frac * n))
     b = int(math.floor(Fraction(str(frac)) * n))
     return {a, b}
@@ -199,7 +202,12 @@ def check_loader(c, rec):
 # ---- one-hot ----------------------------------------------------------------------------------------
 @st.composite
 def onehot_cases(draw):
-    kind = draw(st.sampled_from(["ints", "gaps", "negative", "floats", "strings"]))
+    kind = draw(st.sampled_from(["ints", "gaps", "negative", "floats", "strings", "many"]))
+    if kind == "many":
+        k = draw(st.sampled_from([257, 300, 520]))
+        step = draw(st.sampled_from([1, 3]))
+        labels = [((j * 7) % k) * step for j in range(k)] + [draw(st.integers(0, k - 1)) * step for _ in range(5)]
+        return {"kind": kind, "labels": labels, "as": draw(st.sampled_from(["list", "ndarray"]))}
     pool = {"ints": [0, 1, 2, 3], "gaps": [0, 2, 5, 9, 40], "negative": [-3, -1, 0, 2], "floats": [0.5, 1.5, -2.25, 3.0],
             "strings": ["cat", "dog", "ant", "bee"]}[kind]
     k = draw(st.integers(1, len(pool)))
